@@ -14,6 +14,11 @@ NOTE = ('Trusted: clang 14 front end, the extractor tools/theo_facts.cc, the Pyt
         'executed.')
 
 CLAIMS = {
+    'C03': ('generator invariants: dominance on the CFG, register-provenance lattice, single-definition origin tracking; VM frame roles from handler summaries',
+            'Decides the four well-formedness lemmas (root frame/HALT, jumps backpatched to labels set exactly once, every '
+            'register operand from the current routine allocator and frame size recorded after the last allocation with one '
+            'register per parameter, one consistent callee record in PREPARE/ARG/EXEC) on the generator itself, i.e. for all '
+            'programs at once; the VM side (frame roles per opcode) from the handler summaries. It inspects no emitted program.', '4/C03'),
     'C19': ('effect summaries (abstract interpretation of VM handlers): growth/release pairing of data and activation stack',
             'Decides, for every path of every VM method, that data grows only when an activation is pushed (by exactly '
             'its recorded size, from its recorded start) and that every pop shrinks data to the popped start: an '
